@@ -44,7 +44,7 @@ def generate(rng, tier):
         for nbig in ([300, 640, 1100] if tier == "thorough" else [300 + 40 * len(regime)]):
             cases.append({"regime": regime, "segs": gen.big_timeline(rng, regime, nbig), "collar": rng.choice([0, 1, 2, 6])})
     cases += gen.decimal_copies(rng, cases, (1500 if tier == "thorough" else 150), lambda c: c['collar'] == 0 and len(c['segs']) < 50)
-    cases += gen.p3_copies(rng, cases, ['segs'], (1000 if tier == "thorough" else 120), lambda c: len(c['segs']) < 50, lambda d: {**d, 'collar': 2 * d['collar']})
+    cases += gen.p3_copies(rng, cases, ['segs'], (1000 if tier == "thorough" else 120), lambda c: len(c['segs']) < 50 and c['collar'] == 0)     # collar 0 only: a decimal gap tied with the collar rounds either way
     cases += gen.far_copies(rng, cases, ['segs'], (400 if tier == "thorough" else 60))
     return {"cases": cases, "meta": {"exhaustive": True, "small_scope_max_segments": k,
                                      "sizes": gen.stats(cases, {"n_segments": lambda c: len(c["segs"]),
